@@ -76,7 +76,8 @@ Definition grid_ops (b : Z) : list op :=
   flat_map (fun i => [DelInt i; SetInt i 99; SetInt i 199; SetInt i 200; Insert i 99; Insert i 200;
                       Pop (Some i); Imul i; Remove (10 + i); InsertX i 99; PopX i; ImulX i]) (zr (- b) b)
   ++ [Pop None; Append 5; Append 105; Append 200; Extend [5; 6]; Extend []; Extend [5; 200]; Iadd [5; 106];
-      Iadd []; ImulQ 1 2; ImulQ 5 2; ImulQ 2 1; ImulQ (-1) 2; Clear; Reverse; Sort 0 false; Sort 0 true; Sort 3 false; Sort 3 true; Sort 2 true]
+      Iadd []; ExtendN; SetSliceN (None, None, None); SetSliceN (Some 1, Some 3, None); SetSliceN (None, None, Some 2);
+      SetSliceN (None, None, Some 0); ImulQ 1 2; ImulQ 5 2; ImulQ 2 1; ImulQ (-1) 2; Clear; Reverse; Sort 0 false; Sort 0 true; Sort 3 false; Sort 3 true; Sort 2 true]
   ++ flat_map (fun sl => DelSlice sl :: map (SetSlice sl) values) (slices b).
 
 (* list of length n: atoms 10 + (a permutation so that sort/reverse change it) *)
